@@ -53,7 +53,7 @@ func gen(r *vh.Rand, tier string) []string {
 	if tier == "thorough" {
 		n = 6000
 	}
-	var out []string
+	out := a07ammo.GenBigCases(r, tier == "thorough")
 	for i := 0; i < n; i++ {
 		out = append(out, a07ammo.GenURICase(r))
 		out = append(out, a07ammo.GenURIPostCase(r))
